@@ -110,6 +110,7 @@ func (t *Collection) closeCollection() { // Just "close" is a keyword.
 func (t *Collection) GetItem(key []byte, withValue bool) (i *Item, err error) {
 	rnl := t.rootAddRef()
 	defer t.rootDecRef(rnl)
+	verifYield("pin")
 	n := rnl.root
 	for {
 		nNode, err := n.read(t.store)
@@ -206,9 +207,11 @@ func (t *Collection) SetItem(item *Item) (err error) {
 	// Can't reclaim n right now because r might point to n.
 	rnlNew.reclaimLater[0] = t.reclaimMarkUpdate(nloc,
 		&rnl.reclaimMark, &rnlNew.reclaimMark)
+	verifYield("pre-cas")
 	if !t.rootCAS(rnl, rnlNew) {
 		return errors.New("concurrent mutation attempted")
 	}
+	verifYield("post-cas")
 	t.rootDecRef(rnl)
 	return nil
 }
@@ -267,9 +270,11 @@ func (t *Collection) Delete(key []byte) (wasDeleted bool, err error) {
 	rnlNew.reclaimLater[2] = t.reclaimMarkUpdate(middle,
 		&rnl.reclaimMark, &rnlNew.reclaimMark)
 	t.markReclaimable(rnlNew.reclaimLater[2], &rnlNew.reclaimMark)
+	verifYield("pre-cas")
 	if !t.rootCAS(rnl, rnlNew) {
 		return false, errors.New("concurrent mutation attempted")
 	}
+	verifYield("post-cas")
 	t.rootDecRef(rnl)
 	return true, nil
 }
@@ -628,6 +633,7 @@ func (t *Collection) VisitItemsAscendEx(target []byte, withValue bool,
 	visitor ItemVisitorEx) error {
 	rnl := t.rootAddRef()
 	defer t.rootDecRef(rnl)
+	verifYield("pin")
 
 	var prevVisitItem *Item
 	var errCheckedVisitor error
@@ -656,6 +662,7 @@ func (t *Collection) VisitItemsDescendEx(target []byte, withValue bool,
 	visitor ItemVisitorEx) error {
 	rnl := t.rootAddRef()
 	defer t.rootDecRef(rnl)
+	verifYield("pin")
 
 	_, err := t.store.visitNodes(t, rnl.root,
 		target, withValue, visitor, 0, descendChoice)
@@ -674,6 +681,7 @@ func descendChoice(cmp int, n *node) (bool, *nodeLoc, *nodeLoc) {
 func (t *Collection) GetTotals() (numItems uint64, numBytes uint64, err error) {
 	rnl := t.rootAddRef()
 	defer t.rootDecRef(rnl)
+	verifYield("pin")
 	n := rnl.root
 	nNode, err := n.read(t.store)
 	if err != nil || n.isEmpty() || nNode == nil {
